@@ -521,6 +521,9 @@ pub fn all() -> Vec<(&'static str, &'static str, fn() -> R)> {
         ("C11", "sectors_beyond_fat", c11_sectors_beyond_fat),
         ("C11", "length_without_sectors", c11_length_without_sectors),
         ("C11", "stale_handles", c11_stale_handles),
+        ("C11", "set_len_huge", c11_set_len_huge),
+        ("C11", "crosslinked", c11_crosslinked),
+        ("C09", "length_units", c09_length_units),
         ("C12", "failed_refill", c12_failed_refill),
         ("C13", "flush_retry", c13_flush_retry),
         ("C13", "failed_set_len", c13_failed_set_len),
@@ -617,4 +620,205 @@ pub fn c11_stale_handles() -> R {
         }
     }
     Ok(())
+}
+
+/// The length limit counts UTF-16 units (31), not bytes or characters: every name of at most
+/// 31 units is created, found again under any case, and removable; 32 units are refused.
+pub fn c09_length_units() -> R {
+    for v in [Version::V3, Version::V4] {
+        for (ch, units_per) in [("\u{4e2d}", 1usize), ("\u{1e01}", 1), ("\u{e9}", 1), ("x", 1), ("\u{10428}", 2), ("\u{20ac}", 1)] {
+            for units in [1usize, 15, 20, 21, 22, 30, 31, 32] {
+                if units % units_per != 0 {
+                    continue;
+                }
+                let name: String = ch.repeat(units / units_per);
+                let (_, mut c) = fresh(v);
+                let p = format!("/{}", name);
+                let what = format!("{:?} name of {} units ({} bytes)", v, units, name.len());
+                let r = no_panic(&what, || c.create_stream(&p).map(|mut s| s.write_all(b"abc")))?;
+                if units > 31 {
+                    if r.is_ok() {
+                        return Err(format!("{}: accepted", what));
+                    }
+                    continue;
+                }
+                if let Err(e) = r {
+                    return Err(format!("{}: create refused: {}", what, e));
+                }
+                let upper: String = name.chars().map(cfb::verif::verif_uppercase).collect();
+                for q in [p.clone(), format!("/{}", upper)] {
+                    if !c.exists(&q) || !c.is_stream(&q) {
+                        return Err(format!("{}: not found after create (as {:?})", what, q));
+                    }
+                    if c.entry(&q).map(|e| e.len()).unwrap_or(0) != 3 {
+                        return Err(format!("{}: entry() wrong", what));
+                    }
+                }
+                // a second creation must replace, create_new must refuse, never panic
+                let again = no_panic(&what, || c.create_new_stream(&p).map(|_| ()))?;
+                if again.is_ok() {
+                    return Err(format!("{}: create_new_stream succeeded twice", what));
+                }
+                if no_panic(&what, || c.remove_stream(&p))?.is_err() {
+                    return Err(format!("{}: cannot be removed", what));
+                }
+                if c.exists(&p) {
+                    return Err(format!("{}: still there after removal", what));
+                }
+            }
+        }
+    }
+    Ok(())
+}
+
+/// set_len with lengths no file can hold: refused (or at least no panic), nothing changed.
+pub fn c11_set_len_huge() -> R {
+    for v in [Version::V3, Version::V4] {
+        for base in [0usize, 100, 5000] {
+            for n in [u64::MAX, u64::MAX - 1, u64::MAX - 511, u64::MAX - 4095, 1u64 << 63, (1u64 << 63) - 1, 1u64 << 48] {
+                let (buf, mut c) = fresh(v);
+                let mut s = c.create_stream("/a").unwrap();
+                s.write_all(&vec![7u8; base]).unwrap();
+                s.flush().unwrap();
+                let before = buf.snapshot();
+                let what = format!("{:?} set_len({}) on a {}-byte stream", v, n, base);
+                let r = no_panic(&what, || s.set_len(n))?;
+                match r {
+                    Ok(()) => return Err(format!("{}: accepted", what)),
+                    Err(e) if e.kind() == std::io::ErrorKind::InvalidInput => {}
+                    Err(e) => return Err(format!("{}: {:?}", what, e.kind())),
+                }
+                if buf.snapshot() != before {
+                    return Err(format!("{}: refused but the bytes changed", what));
+                }
+                if s.len() != base as u64 {
+                    return Err(format!("{}: handle length now {}", what, s.len()));
+                }
+            }
+        }
+    }
+    Ok(())
+}
+
+/// A stream entry whose start sector is the first sector of a metadata chain (directory,
+/// MiniFAT, mini-stream container): accepted by open in both modes.  Resizing or removing
+/// the stream then frees or truncates that chain; no later call may panic or hang.
+pub fn c11_crosslinked() -> R {
+    use std::sync::mpsc;
+    let mut failures: Vec<String> = Vec::new();
+    for v in [Version::V3, Version::V4] {
+        let sl = v.sector_len();
+        for target in 0..3 {
+            for script in 0..6 {
+                let what = format!("{:?} stream start := {} script {}", v, ["first directory sector", "first MiniFAT sector", "first mini-stream sector"][target], script);
+                let (tx, rx) = mpsc::channel();
+                let what2 = what.clone();
+                std::thread::spawn(move || {
+                    let r = catch_unwind(AssertUnwindSafe(|| {
+                        let (buf, mut c) = fresh(v);
+                        for n in ["/b", "/a", "/c"] {
+                            c.create_storage(n).unwrap();
+                        }
+                        if script != 4 {
+                            c.create_stream("/m").unwrap().write_all(&[1u8; 300]).unwrap();
+                        }
+                        // enough storages for several directory sectors
+                        for i in 0..(if script >= 4 { 0 } else { 40 }) {
+                            c.create_storage(format!("/q{:02}", i)).unwrap();
+                        }
+                        if script == 5 {
+                            // more mini sectors than one MiniFAT sector describes
+                            for i in 0..17 {
+                                c.create_stream(format!("/s{}", (b'A' + i as u8) as char)).unwrap().write_all(&[7u8; 4000]).unwrap();
+                            }
+                        }
+                        c.create_stream("/z").unwrap().write_all(&[2u8; 5120]).unwrap();
+                        drop(c);
+                        let mut bytes = buf.snapshot();
+                        let dir_start = u32::from_le_bytes(bytes[48..52].try_into().unwrap());
+                        let mf_start = u32::from_le_bytes(bytes[60..64].try_into().unwrap());
+                        // find /z's entry and the root entry by scanning the directory chain for the names
+                        let mut z_off = None;
+                        let mut k = 0;
+                        while (k + 1) * 128 <= bytes.len() {
+                            let o = k * 128;
+                            if o >= sl && bytes[o] == b'z' && bytes[o + 1] == 0 && bytes[o + 2] == 0 && bytes[o + 64] == 4 && bytes[o + 66] == 2 {
+                                z_off = Some(o);
+                            }
+                            k += 1;
+                        }
+                        let z_off = z_off.expect("entry of /z");
+                        let root_off = (dir_start as usize + 1) * sl;
+                        let ms_start = u32::from_le_bytes(bytes[root_off + 116..root_off + 120].try_into().unwrap());
+                        let val = [dir_start, mf_start, ms_start][target];
+                        bytes[z_off + 116..z_off + 120].copy_from_slice(&val.to_le_bytes());
+                        let b = SharedBuf::new(bytes);
+                        let mut c = match CompoundFile::open(b) {
+                            Ok(c) => c,
+                            Err(_) => return,
+                        };
+                        match script {
+                            0 => {
+                                let _ = c.remove_stream("/z");
+                                let _ = c.remove_storage("/b");
+                                let _ = c.remove_storage("/b");
+                                let _ = c.exists("/d");
+                                let _ = c.exists("/q39");
+                            }
+                            1 => {
+                                if let Ok(mut s) = c.open_stream("/z") {
+                                    let _ = s.set_len(4096);
+                                }
+                                let _ = c.remove_storage("/q39");
+                                let _ = c.remove_storage("/q20");
+                                let _ = c.create_storage("/new");
+                            }
+                            2 => {
+                                if let Ok(mut s) = c.open_stream("/z") {
+                                    let _ = s.set_len(0);
+                                    let _ = s.write_all(&[9u8; 100]);
+                                    let _ = s.flush();
+                                }
+                                let _ = c.remove_stream("/m");
+                                let _ = c.create_stream("/n").map(|mut s| s.write_all(&[3u8; 200]));
+                                let _ = c.remove_storage("/a");
+                            }
+                            4 => {
+                                let _ = c.remove_stream("/z");
+                                let _ = c.remove_storage("/b");
+                                let _ = c.remove_storage("/b");
+                                let _ = c.exists("/d");
+                            }
+                            5 => {
+                                if let Ok(mut s) = c.open_stream("/z") {
+                                    let _ = s.set_len(4096);
+                                }
+                                let _ = c.remove_stream("/sQ");
+                                let _ = c.remove_stream("/sP");
+                                let _ = c.create_stream("/n").map(|mut s| s.write_all(&[3u8; 200]));
+                            }
+                            _ => {
+                                let _ = c.create_stream("/z").map(|mut s| s.write_all(&[4u8; 9000]));
+                                let _ = c.remove_storage("/c");
+                                let _ = c.remove_stream("/m");
+                                let _ = c.walk().count();
+                            }
+                        }
+                        let _ = c.walk().count();
+                    }));
+                    let _ = tx.send(r.map_err(|_| format!("panic in {}", what2)));
+                });
+                match rx.recv_timeout(std::time::Duration::from_secs(10)) {
+                    Ok(Ok(())) => {}
+                    Ok(Err(e)) => failures.push(e),
+                    Err(_) => failures.push(format!("hang in {}", what)),
+                }
+            }
+        }
+    }
+    if failures.is_empty() {
+        Ok(())
+    } else {
+        Err(failures.join("; "))
+    }
 }
